@@ -304,8 +304,15 @@ fn finish(cfg: &Cfg, ops: Vec<Op>, obs: Obs, panicked: bool) -> RunResult {
 /// ddmin over the op list, then argument simplification, preserving the violation signature.
 pub fn minimise(make: MakeWorld, cfg: &Cfg, ops: &[Op], sig: &str, budget: usize) -> (Vec<Op>, usize) {
     let mut execs = 0usize;
+    // bounded in executions and in wall time (long traces that do not shrink would otherwise cost budget x run time);
+    // once the time is up every further candidate counts as "does not reproduce", which only makes the result less minimal
+    let deadline = std::time::Instant::now() + std::time::Duration::from_secs(120);
     let test = |cand: &[Op], execs: &mut usize| -> bool {
         *execs += 1;
+        if std::time::Instant::now() > deadline {
+            *execs = (*execs).max(budget);
+            return false;
+        }
         let r = run_trace(make, cfg, cand);
         r.violations.iter().any(|v| v.signature() == sig)
     };
